@@ -4,6 +4,11 @@ package concprobe
 // executed by a quick self-completing runner. Built with -race by the orchestrator. Records
 //  - the lock-mode probes of every access site (hook, build tag verif),
 //  - snapshots taken by readers under the read lock (consistent state),
+//  - facts that hold for every interleaving (rows with a property id): running jobs per pipeline and waiting jobs per
+//    pipeline in every snapshot (C01, C05); with the order of the critical sections taken from the probes: no request is
+//    accepted in a critical section after the one in which Shutdown began (C11), a job is built from the definitions
+//    installed by the last ReplaceDefinitions critical section before its own (C16), nothing is left non-terminal
+//    when Shutdown has returned (C11),
 // the race detector's reports are collected from the process output by the orchestrator.
 
 import (
@@ -13,7 +18,9 @@ import (
 	"io"
 	"math/rand"
 	"os"
+	"runtime"
 	"strconv"
+	"strings"
 	"sync"
 	"testing"
 	"time"
@@ -89,6 +96,28 @@ type lockKey struct {
 	AnyHeld   bool   `json:"anyHeld"`
 }
 
+// gid: the id of the calling goroutine (the probes run on the goroutine of the operation they belong to)
+func gid() string {
+	var b [64]byte
+	s := string(b[:runtime.Stack(b[:], false)])
+	s = strings.TrimPrefix(s, "goroutine ")
+	if i := strings.IndexByte(s, ' '); i > 0 {
+		return s[:i]
+	}
+	return s
+}
+
+// factKey: one distinct observation; N counts how often it was made
+type factKey struct {
+	Prop string `json:"prop"`
+	What string `json:"what"`
+	P    string `json:"p"`
+	A    int    `json:"a"` // C01: running jobs   C05: waiting jobs   C11: seq of the accepting critical section   C16: variant of the job
+	B    int    `json:"b"` // C01: concurrency    C05: queue limit    C11: seq of Shutdown.begin (0: none)        C16: variant installed at that moment
+}
+
+var qlimit = map[string]int{"a": 3, "b": 1, "c": -1, "r": 3}
+
 func defs(variant int) *definition.PipelinesDef {
 	three, one := 3, 1
 	return &definition.PipelinesDef{Pipelines: map[string]definition.PipelineDef{
@@ -119,9 +148,61 @@ func TestConcurrentClients(t *testing.T) {
 	}
 	var mu sync.Mutex
 	counts := map[lockKey]int{}
+	facts := map[factKey]int{}
+	fact := func(k factKey) {
+		mu.Lock()
+		facts[k]++
+		mu.Unlock()
+	}
+	// the facts are written out every 100 ms as well, so that they survive a runtime fault of the process
+	flushFacts := func() {
+		outFacts := os.Getenv("VERIF_ROWS_LOCK_FACTS")
+		if outFacts == "" {
+			return
+		}
+		f3, err := os.Create(outFacts + ".tmp")
+		if err != nil {
+			return
+		}
+		enc3 := json.NewEncoder(f3)
+		mu.Lock()
+		for k, n := range facts {
+			_ = enc3.Encode(map[string]interface{}{"prop": k.Prop, "what": k.What, "p": k.P, "a": k.A, "b": k.B, "n": n})
+		}
+		mu.Unlock()
+		f3.Close()
+		_ = os.Rename(outFacts+".tmp", outFacts)
+	}
+	go func() {
+		for {
+			time.Sleep(100 * time.Millisecond)
+			flushFacts()
+		}
+	}()
+	// order of the critical sections (all three sites run under the write lock, so the hook calls are totally ordered)
+	var (
+		seq         int
+		shutdownSeq int
+		curVariant  int
+		wantVariant = map[string]int{}    // goroutine -> variant it is about to install
+		lastSched   = map[string][2]int{} // goroutine -> (seq, variant installed) of its last accepting critical section
+	)
 	prunner.VerifAccessHook = func(site string, mutates, writeHeld, anyHeld bool) {
 		mu.Lock()
 		counts[lockKey{site, mutates, writeHeld, anyHeld}]++
+		switch site {
+		case "ScheduleAsync":
+			seq++
+			lastSched[gid()] = [2]int{seq, curVariant}
+		case "Shutdown.begin":
+			seq++
+			shutdownSeq = seq
+		case "ReplaceDefinitions":
+			seq++
+			if v, ok := wantVariant[gid()]; ok {
+				curVariant = v
+			}
+		}
 		mu.Unlock()
 	}
 	type snapRow struct {
@@ -161,15 +242,30 @@ func TestConcurrentClients(t *testing.T) {
 		if err != nil {
 			t.Fatal(err)
 		}
+		mu.Lock()
+		seq, shutdownSeq, curVariant = 0, 0, 0
+		mu.Unlock()
 		var ids sync.Map
 		var wg sync.WaitGroup
 		stop := time.Now().Add(dur)
+		// in every second round Shutdown begins while the clients are still active
+		shutdownDone := make(chan struct{})
+		if round%2 == 1 {
+			go func() {
+				time.Sleep(dur * 2 / 3)
+				sctx, scancel := context.WithTimeout(context.Background(), 300*time.Millisecond)
+				_ = pr.Shutdown(sctx)
+				scancel()
+				close(shutdownDone)
+			}()
+		}
 		nclients := 8
 		for c := 0; c < nclients; c++ {
 			wg.Add(1)
 			go func(c int) {
 				defer wg.Done()
 				rnd := rand.New(rand.NewSource(seed*1000 + int64(round*100+c)))
+				me := gid()
 				var mine []uuid.UUID
 				for time.Now().Before(stop) {
 					switch k := rnd.Intn(100); {
@@ -178,6 +274,14 @@ func TestConcurrentClients(t *testing.T) {
 						if j, err := pr.ScheduleAsync(p, prunner.ScheduleOpts{Variables: map[string]interface{}{"c": c}}); err == nil {
 							mine = append(mine, j.ID)
 							ids.Store(j.ID, true)
+							mu.Lock()
+							ls, sd := lastSched[me], shutdownSeq
+							mu.Unlock()
+							fact(factKey{Prop: "C11", What: "accepted-vs-shutdown", P: p, A: ls[0], B: sd})
+							if p == "a" {
+								jv, _ := strconv.Atoi(j.Env["V"])
+								fact(factKey{Prop: "C16", What: "job-built-from-installed-definitions", P: p, A: jv, B: ls[1]})
+							}
 						}
 					case k < 50:
 						if len(mine) > 0 {
@@ -198,6 +302,7 @@ func TestConcurrentClients(t *testing.T) {
 						}
 					case k < 80:
 						running := map[string]int{}
+						waiting := map[string]int{}
 						seen := map[uuid.UUID]bool{}
 						pr.IterateJobs(func(j *prunner.PipelineJob) {
 							if seen[j.ID] {
@@ -207,7 +312,16 @@ func TestConcurrentClients(t *testing.T) {
 							if j.Start != nil && !j.Completed && !j.Canceled {
 								running[j.Pipeline]++
 							}
+							if j.Start == nil && !j.Completed && !j.Canceled {
+								waiting[j.Pipeline]++
+							}
 						})
+						for p, n := range running {
+							fact(factKey{Prop: "C01", What: "running-jobs-in-snapshot", P: p, A: n, B: conc[p]})
+						}
+						for p, n := range waiting {
+							fact(factKey{Prop: "C05", What: "waiting-jobs-in-snapshot", P: p, A: n, B: qlimit[p]})
+						}
 						for p, n := range running {
 							if n > conc[p] {
 								bad("more running jobs than the concurrency limit in one snapshot", fmt.Sprintf("%s: %d > %d", p, n, conc[p]))
@@ -221,7 +335,11 @@ func TestConcurrentClients(t *testing.T) {
 							_ = pi
 						}
 					case k < 94:
-						pr.ReplaceDefinitions(defs(rnd.Intn(3)))
+						v := rnd.Intn(3)
+						mu.Lock()
+						wantVariant[me] = v
+						mu.Unlock()
+						pr.ReplaceDefinitions(defs(v))
 					default:
 						pr.SaveToStore()
 					}
@@ -232,14 +350,20 @@ func TestConcurrentClients(t *testing.T) {
 			}(c)
 		}
 		wg.Wait()
-		sctx, scancel := context.WithTimeout(context.Background(), 200*time.Millisecond)
-		_ = pr.Shutdown(sctx)
-		scancel()
+		if round%2 == 1 {
+			<-shutdownDone
+		} else {
+			sctx, scancel := context.WithTimeout(context.Background(), 200*time.Millisecond)
+			_ = pr.Shutdown(sctx)
+			scancel()
+		}
+		nonTerminal := 0
 		pr.IterateJobs(func(j *prunner.PipelineJob) {
 			if !j.Completed && !j.Canceled {
-				bad("job not terminal after shutdown", j.ID.String())
+				nonTerminal++
 			}
 		})
+		fact(factKey{Prop: "C11", What: "non-terminal-jobs-after-shutdown-returned", A: nonTerminal})
 		cancelCtx()
 	}
 	f, err := os.Create(outLock)
@@ -251,6 +375,7 @@ func TestConcurrentClients(t *testing.T) {
 		_ = enc.Encode(map[string]interface{}{"site": k.Site, "mutates": k.Mutates, "writeHeld": k.WriteHeld, "anyHeld": k.AnyHeld, "n": n})
 	}
 	f.Close()
+	flushFacts()
 	f2, _ := os.Create(outSnap)
 	enc2 := json.NewEncoder(f2)
 	_ = enc2.Encode(snapRow{fmt.Sprintf("%d snapshots and reads by concurrent clients were consistent", nsnap), true, ""})
